@@ -29,7 +29,7 @@ ASSUMPTIONS = ['CPython list.sort is stable (also with reverse=True)',
                'pickle round-trips the generated cell values']
 REQUIRED = ['sort:pass-after-a-failed-pass', 'sort:iterator-open-across-clearcache', 'long-table-sorts', 'chunked:more-than-16-chunks+ties', 'chunked:buffersize==nrows', 'chunked:buffersize==nrows-1', 'inmemory:buffersize==nrows+1', 'chunked:buffersize==1',
             'chunked:reverse+ties-across-chunks', 'pass2:file-cache', 'pass2:mem-cache', 'key-cell-missing',
-            'mergesort:tie-across-tables', 'mergesort:presorted', 'config.sort_buffersize-used']
+            'mergesort:tie-across-tables', 'mergesort:inputs-are-sort-views', 'mergesort:presorted', 'config.sort_buffersize-used']
 EXHAUSTIVE = {'quick': False, 'thorough': False}
 
 _audit = None
@@ -324,6 +324,20 @@ def _judge_mergesort(case, ctx):
     kw = dict(key=key, reverse=reverse, missing=missing, presorted=presorted)
     if header is not None:
         kw['header'] = header
+    form = int(util.fp(case)[4:6], 16) % 8
+    if form < 4 and not presorted:
+        # the inputs are themselves views: sorts on the same key (in the same or the opposite direction), on another key, or plain
+        # wrappers.  A stable sort leaves equal keys in table order in either direction, so the merged result is the same
+        def resolves(t):
+            try:
+                return key is None or bool(gen.resolve_key(t[0], key))
+            except ValueError:
+                return False
+        if all(resolves(t) for t in srcs):
+            mk = [lambda t: petl.sort(t, key, reverse=not reverse), lambda t: petl.sort(t, key, reverse=reverse),
+                  lambda t: petl.sort(petl.sort(t, key, reverse=not reverse, buffersize=2), key, reverse=reverse), petl.wrap][form]
+            srcs = [mk(t) for t in srcs]
+            ctx.seen('mergesort:inputs-are-sort-views')
     for bs in (None, 1, 2):
         if bs is not None:
             kw['buffersize'] = bs
